@@ -1,5 +1,6 @@
 """C09 - undecodable files never disturb the output for the others (E3: one junk entry added to a good directory)."""
 import json
+from mc import strictjson
 import os
 import shutil
 import tempfile
@@ -177,20 +178,20 @@ class Env:
 def parse_out(mode, text):
     """-> ('n', int) | ('l', [(eid, entry)]) | ('a', [docs]) | ('x', [blocks]) ; raises on malformed stdout"""
     if mode == 'n':
-        return json.loads(text)['Number of PELs found']
+        return strictjson.loads(text)['Number of PELs found']
     if mode in ('lx', 'ax'):
         blocks = clidrv.split_hex_blocks(text)
         if blocks is None:
             raise ValueError('stdout is not a sequence of complete Begin/End blocks')
         return [rhex.read_default(b).hex() for b in blocks]
     if mode == 'a':
-        v = json.loads(text)
+        v = strictjson.loads(text)
         if not isinstance(v, list):
             raise ValueError('-a did not print a JSON array')
         return v
     if mode == 'j':
         return None
-    v = json.loads(text, object_pairs_hook=lambda p: p)
+    v = strictjson.loads(text, object_pairs_hook=lambda p: p)
     return [(k, json.dumps(e)) for k, e in v]
 
 
